@@ -1252,6 +1252,46 @@ theorem task_start_down_parked (P : RsP) (s : RsT) (dt : Nat)
   unfold rsTick; rw [htask]
   refine ⟨⟨by simp only; rw [a2], by simp only; rw [a3], rfl, rfl, by simp only; rw [a5]; exact hlo, by simp only; rw [a5]; exact hhi⟩,
     by simp only; rw [a5], by simp only; rw [a6], by simp only; rw [a7]⟩
+/-- from rest inside the start gate (the shutter stopped less than the start delay ago): the first callback parks the upward
+    request for the delayed trigger with the outputs still off, and the trigger's firing starts the motor - the task is then in
+    the `Mov` regime of the convergence theorem with nothing carried -/
+theorem task_start_up_parked (P : RsP) (s : RsT) (dt : Nat)
+    (h0 : s.tstate = 1 ∧ s.rel = 0 ∧ s.pend = 0 ∧ 100 ≤ s.pos ∧ s.pos ≤ 10100 ∧ s.sinceStop + dt < startGate + s.lag)
+    (hb : s.pos - 100 > s.target * 100) (hg : ¬ (P.margin = 0 ∧ reportedPos s.pos = 0)) :
+    (rsTick P s dt).rel = 0 ∧ (rsTick P s dt).pend = 2 ∧
+    MovU (fireTrig P (rsTick P s dt)) ∧ (fireTrig P (rsTick P s dt)).pos = s.pos ∧
+    (fireTrig P (rsTick P s dt)).upT = 0 ∧ (fireTrig P (rsTick P s dt)).target = s.target := by
+  obtain ⟨hts, hrel, hpend, hlo, hhi, hss⟩ := h0
+  have hk : known s.pos = true := known_of s.pos ⟨hlo, hhi⟩
+  have hacc : account P s dt = { s with upT := 0, downT := 0, sinceStop := s.sinceStop + dt } := by
+    unfold account; rw [if_neg (by omega), if_neg (by omega)]
+  have htask : taskStep P (account P s dt) =
+      { s with upT := 0, downT := 0, sinceStop := s.sinceStop + dt, tstate := 2, dir := 2, pend := 2 } := by
+    rw [hacc]
+    have e6 : ¬ (s.pos - 100 ≤ s.target * 100) := by omega
+    simp [taskStep, hts, hk, relReq, hrel, hb, hss, e6]
+  have hk2 := commStep_keep { s with upT := 0, downT := 0, sinceStop := s.sinceStop + dt, tstate := 2, dir := 2, pend := 2 } dt
+    (by simp) (by simp)
+  obtain ⟨a1, a2, a3, a4, a5, a6, a7, a8⟩ := hk2
+  simp only at a1 a2 a3 a4 a5 a6 a7 a8
+  have hg' : ¬ (P.margin = 0 ∧ (((rsTick P s dt).pend = 2 ∧ reportedPos (rsTick P s dt).pos = 0) ∨
+      ((rsTick P s dt).pend = 1 ∧ reportedPos (rsTick P s dt).pos = 100))) := by
+    unfold rsTick; rw [htask, a4, a5]
+    intro h; rcases h with ⟨hm, h | h⟩
+    · exact hg ⟨hm, h.2⟩
+    · omega
+  have hf := c10_trigger_executes P (rsTick P s dt)
+  have hpe : (rsTick P s dt).pend = 2 := by unfold rsTick; rw [htask, a4]
+  have hfr := hf.2.2.1 (by omega) hg'
+  have hfeq : fireTrig P (rsTick P s dt) = { rsTick P s dt with pend := 0, rel := 2 } := by
+    have : fireTrig P (rsTick P s dt) = { rsTick P s dt with pend := 0, rel := (fireTrig P (rsTick P s dt)).rel } := by
+      unfold fireTrig; rw [if_neg (by omega)]
+    rw [this, hfr, hpe]
+  refine ⟨by unfold rsTick; rw [htask, a1, hrel], hpe, ?_⟩
+  rw [hfeq]
+  unfold rsTick; rw [htask]
+  refine ⟨⟨by simp only; rw [a2], by simp only; rw [a3], rfl, rfl, by simp only; rw [a5]; exact hlo, by simp only; rw [a5]; exact hhi⟩,
+    by simp only; rw [a5], by simp only; rw [a8], by simp only; rw [a7]⟩
 /-- **C10 (from rest inside the start gate to the target)** the request parked by the first callback and released by the
     delayed trigger converges like any other: for every later callback sequence long enough the motor is off again at or
     beyond the target -/
